@@ -1,5 +1,5 @@
 (* C17 — Format migration and mixed-version logs preserve every message. *)
-From KV Require Import Base Model Spec LogInv DeleteProofs OpenProofs History Versions.
+From KV Require Import Base Model Spec LogInv DeleteProofs OpenProofs History Versions Codec CodecProofs RecoverProofs RecoverCrash RecoverCrashProofs.
 
 (* Migrate on a closed directory: every message and NextOffset are preserved, the directory stays
    well-formed, and afterwards every segment is in the requested version *)
@@ -77,3 +77,43 @@ Theorem C17_versions_after_publish :
     (forall s, In s pre -> In s (segs st)).
 Proof. exact Versions.publish_versions. Qed.
 Print Assumptions C17_versions_after_publish.
+
+(* ---------- Migrate of one segment can be interrupted anywhere (RecoverCrash.migrate_prog: remove the index, re-encode the
+   records into <log>.migrate, rename it over the log, index.Write of the index derived from the new positions; bytes and
+   file-system steps are compared with the real Segment.Migrate on every run of the C17 check).
+   For a clean segment - a log file that is the encoding of messages ms in version v, named after its first record, its index
+   file absent or the one derived from it - and a target version mv <> v: after ANY number k of completed steps and ANY
+   part j of an append in flight, the segment passes Check and its log file is the encoding of exactly the same messages,
+   in the old or in the new version.  (The index is removed FIRST: an old index beside a migrated log would be trusted -
+   positions differ between the versions - which is what the seeded change C17-migrate-keeps-old-index-until-rewritten does.) *)
+Theorem C17_migrate_crash_safe :
+  forall crc H, crc_range crc -> (forall k, 0 <= H k < two64z) ->
+  forall p base v mv iv ms idx0,
+  Forall msg_ok ms -> 0 <= base < two63 ->
+  match ms with [] => True | m :: _ => moff m = base end ->
+  ver_eqb v mv = false ->
+  hdr_size mv + recs_size mv ms < two63 ->
+  index_is p base idx0 (scan_items H p (placed v (hdr_size v) ms)) ->
+  forall prog stale_migrate_tmp stale_index_tmp k j,
+  migrate_prog crc H p base mv iv (enc_log crc v ms) = Ok prog ->
+  let img := rimage (mkRf (enc_log crc v ms) stale_migrate_tmp idx0 stale_index_tmp) prog k j in
+  check_bytes crc H p base (rlog img) (ridx img) = Ok tt /\
+  exists w, (w = v \/ w = mv) /\ rlog img = enc_log crc w ms.
+Proof. exact migrate_crash_safe. Qed.
+Print Assumptions C17_migrate_crash_safe.
+
+(* run to its end: the log in the requested version holding the same messages, the index derived from it *)
+Theorem C17_segment_migrate_result :
+  forall crc H, crc_range crc ->
+  forall p base v mv iv ms idx0,
+  Forall msg_ok ms -> 0 <= base < two63 ->
+  match ms with [] => True | m :: _ => moff m = base end ->
+  ver_eqb v mv = false ->
+  hdr_size mv + recs_size mv ms < two63 ->
+  index_is p base idx0 (scan_items H p (placed v (hdr_size v) ms)) ->
+  forall prog rt it,
+  migrate_prog crc H p base mv iv (enc_log crc v ms) = Ok prog ->
+  rlog (rrun (mkRf (enc_log crc v ms) rt idx0 it) prog) = enc_log crc mv ms /\
+  ridx (rrun (mkRf (enc_log crc v ms) rt idx0 it) prog) = Some (enc_index iv p (scan_items H p (placed mv (hdr_size mv) ms))).
+Proof. exact migrate_prog_result. Qed.
+Print Assumptions C17_segment_migrate_result.
